@@ -1,6 +1,7 @@
 package mpath
 
 import (
+	"math/big"
 	"reflect"
 	"strings"
 
@@ -30,6 +31,10 @@ func isEmptyValue(v reflect.Value) bool {
 }
 
 func convertToDecimalIfNumberAndCheck(val any) (wasNumber bool, out decimal.Decimal) {
+	if d, ok := val.(decimal.Decimal); ok {
+		return true, d
+	}
+
 	v := reflect.ValueOf(val)
 
 	if !isEmptyValue(v) {
@@ -39,46 +44,58 @@ func convertToDecimalIfNumberAndCheck(val any) (wasNumber bool, out decimal.Deci
 		}
 	}
 
-	if !(isNumberKind(v.Kind()) || v.Kind() == reflect.String) {
-		return
+	if d, ok := decimalFromValue(v); ok {
+		return true, d
 	}
 
-	switch outType := val.(type) {
-	case string:
+	// the kind is used (rather than the type) so that named types are handled too
+	switch v.Kind() {
+	case reflect.String:
 		var err error
-		out, err = decimal.NewFromString(outType)
+		out, err = decimal.NewFromString(v.String())
 		if err != nil {
 			return false, decimal.Zero
 		}
-	case int:
-		out = decimal.NewFromInt(int64(outType))
-	case int8:
-		out = decimal.NewFromInt(int64(outType))
-	case int16:
-		out = decimal.NewFromInt(int64(outType))
-	case int32:
-		out = decimal.NewFromInt(int64(outType))
-	case int64:
-		out = decimal.NewFromInt(int64(outType))
-	case uint:
-		out = decimal.NewFromInt(int64(outType))
-	case uint8:
-		out = decimal.NewFromInt(int64(outType))
-	case uint16:
-		out = decimal.NewFromInt(int64(outType))
-	case uint32:
-		out = decimal.NewFromInt(int64(outType))
-	case uint64:
-		out = decimal.NewFromInt(int64(outType))
-	case float32:
-		out = decimal.NewFromFloat(float64(outType))
-	case float64:
-		out = decimal.NewFromFloat(outType)
+	case reflect.Int, reflect.Int8, reflect.Int16, reflect.Int32, reflect.Int64:
+		out = decimal.NewFromInt(v.Int())
+	case reflect.Uint, reflect.Uint8, reflect.Uint16, reflect.Uint32, reflect.Uint64:
+		out = decimal.NewFromBigInt(new(big.Int).SetUint64(v.Uint()), 0)
+	case reflect.Float32, reflect.Float64:
+		out = decimal.NewFromFloat(v.Float())
+	default:
+		return false, decimal.Zero
 	}
 
 	wasNumber = true
 
 	return
+}
+
+// decimalFromValue returns the decimal held by v when v is (a pointer or interface to) a decimal.Decimal
+func decimalFromValue(v reflect.Value) (out decimal.Decimal, ok bool) {
+	if !v.IsValid() || !v.CanInterface() {
+		return out, false
+	}
+
+	out, ok = v.Interface().(decimal.Decimal)
+	return
+}
+
+// convertNumberKindsToDecimal converts values of any numeric kind (but not numeric strings) to decimals
+func convertNumberKindsToDecimal(val any) (out any) {
+	v := reflect.ValueOf(val)
+	if !isEmptyValue(v) {
+		switch v.Kind() {
+		case reflect.Pointer, reflect.Interface:
+			v = v.Elem()
+		}
+	}
+
+	if v.Kind() == reflect.String {
+		return val
+	}
+
+	return convertToDecimalIfNumber(val)
 }
 
 func convertToDecimalIfNumber(val any) (out any) {
@@ -232,32 +249,7 @@ func getFieldValueByNameFromStruct(identName string, structValue reflect.Value) 
 		if strings.EqualFold(structFieldName, identName) {
 			out = structValue.Field(fn).Interface()
 
-			switch outType := out.(type) {
-			case float64:
-				out = decimal.NewFromFloat(outType)
-			case float32:
-				out = decimal.NewFromFloat(float64(outType))
-			case int:
-				out = decimal.NewFromInt(int64(outType))
-			case int8:
-				out = decimal.NewFromInt(int64(outType))
-			case int16:
-				out = decimal.NewFromInt(int64(outType))
-			case int32:
-				out = decimal.NewFromInt(int64(outType))
-			case int64:
-				out = decimal.NewFromInt(int64(outType))
-			case uint:
-				out = decimal.NewFromInt(int64(outType))
-			case uint8:
-				out = decimal.NewFromInt(int64(outType))
-			case uint16:
-				out = decimal.NewFromInt(int64(outType))
-			case uint32:
-				out = decimal.NewFromInt(int64(outType))
-			case uint64:
-				out = decimal.NewFromInt(int64(outType))
-			}
+			out = convertNumberKindsToDecimal(out)
 
 			return out, true
 		}
